@@ -1,10 +1,145 @@
-(** C13 (stage A): every public Builder method is described by a descriptor
-    translated from its body, or is one of the structural methods modelled by
-    hand; theorems over [bstep] histories are being added in Proofs/BuilderFacts.v. *)
-From RV Require Import Model.Base Model.Builder.
+(** C13 - Builder id discipline: fresh ids, exact bound, deduplicated implicit
+    types.  Statements only; every proof is [exact] of a lemma of
+    Proofs/BuilderIds.v.  The theorems hold for EVERY descriptor list (the
+    generated methods, translated from the source on every run, are one
+    instance), every state and every call sequence - no bound on length. *)
+From RV Require Import Model.Base Model.Bytes Model.Module Model.Inst Model.Builder Proofs.BuilderIds.
 From RV Require Import Gen.BuilderData.
 
 Theorem C13_all_methods_described : unrecognised_methods = [].
 Proof. vm_compute. reflexivity. Qed.
 
+(** [alloc s s'] = the id one call allocated; [brun_ids] collects them over a run *)
+Theorem C13_one_id_per_call :
+  forall k_fc ds s c s' o, bstep k_fc ds s c = Some (s', o) ->
+  bs_next s' = bs_next s \/ (bs_next s' = bs_next s + 1 /\ bs_next s + 1 < w32).
+Proof. exact one_id_per_call. Qed.
+
+(** fresh ids are consecutive from the starting counter: pairwise distinct, strictly increasing *)
+Theorem C13_ids_consecutive :
+  forall k_fc ds s cs s' ids, brun_ids k_fc ds s cs = Some (s', ids) ->
+  ids = map (fun k => bs_next s + N.of_nat k) (seq 0 (length ids)) /\
+  bs_next s' = bs_next s + N.of_nat (length ids).
+Proof. exact ids_consecutive. Qed.
+
+Theorem C13_ids_strictly_increasing :
+  forall k_fc ds s cs s' ids j k a b, brun_ids k_fc ds s cs = Some (s', ids) ->
+  nth_error ids j = Some a -> nth_error ids k = Some b -> (j < k)%nat -> a < b.
+Proof. exact ids_strictly_increasing. Qed.
+
+Theorem C13_ids_distinct :
+  forall k_fc ds s cs s' ids, brun_ids k_fc ds s cs = Some (s', ids) -> NoDup ids.
+Proof. exact ids_NoDup. Qed.
+
+(** starting at 1 for a new builder, at the header bound when continuing a module *)
+Theorem C13_first_id_new :
+  forall k_fc ds cs s' ids, brun_ids k_fc ds bnew cs = Some (s', ids) -> ids <> [] -> hd_error ids = Some 1.
+Proof. exact ids_first_bnew. Qed.
+
+Theorem C13_first_id_continuing :
+  forall k_fc ds m h s cs s' ids, bfrom m (Some h) = Some s ->
+  brun_ids k_fc ds s cs = Some (s', ids) -> ids <> [] -> hd_error ids = Some (h_bound h).
+Proof. exact ids_first_bfrom. Qed.
+
+(** the finished module's bound is the next id, hence exceeds every allocated id *)
+Theorem C13_bound_is_next_id :
+  forall s' h, fst (finish s') = Some h -> h_bound h = bs_next s'.
+Proof. exact bound_is_next. Qed.
+
+Theorem C13_bound_exceeds_allocated :
+  forall k_fc ds s cs s' ids h x, brun_ids k_fc ds s cs = Some (s', ids) ->
+  fst (finish s') = Some h -> In x ids -> x < h_bound h.
+Proof. exact bound_exceeds_ids. Qed.
+
+(** explicitly requested ids: id() returns the allocated one *)
+Theorem C13_id_call :
+  forall k_fc ds s s' v, bstep k_fc ds s CId = Some (s', BVal v) -> v = bs_next s /\ alloc s s' = [v].
+Proof. exact id_call_returns_allocated. Qed.
+
+(** implicitly assigned: a generated method with a fresh result id builds its
+    instruction with exactly the allocated id *)
+Theorem C13_emitted_instruction_carries_allocated_id :
+  forall d s e s' o, d_sink d <> SDedupType -> run_descriptor d s e = Some (s', o) -> ~ failed o ->
+  exists i, built_inst d s e = Some i /\ received d e s s' i /\
+            (forall v, o = BVal v -> i_rid i = Some v) /\
+            alloc s s' = (if takes_fresh d e then [bs_next s] else []).
+Proof. exact descriptor_call_spec. Qed.
+
+(** type requests: explicit id always appends a declaration carrying that id *)
+Theorem C13_type_explicit_appends :
+  forall d s e s' o id, d_sink d = SDedupType -> run_descriptor d s e = Some (s', o) ->
+  dedup_req d e = Some (Some id) ->
+  exists rt ops, call_parts d e = Some (rt, ops) /\ o = BVal id /\
+    types s' = types s ++ [mk_inst (d_opcode d) rt (Some id) ops] /\ alloc s s' = [].
+Proof.
+  exact (fun d s e s' o id H1 H2 H3 =>
+    match dedup_explicit d s e s' o id H1 H2 H3 with
+    | ex_intro _ rt (ex_intro _ ops (conj a (conj b (conj _ (conj c d'))))) =>
+        ex_intro _ rt (ex_intro _ ops (conj a (conj b (conj c d'))))
+    end).
+Qed.
+
+(** implicit: the id of an earlier identical declaration and nothing added,
+    otherwise exactly one declaration with a fresh id *)
+Theorem C13_type_implicit_dedups :
+  forall d s e s' o, d_sink d = SDedupType -> run_descriptor d s e = Some (s', o) ->
+  dedup_req d e = Some None ->
+  exists rt ops, call_parts d e = Some (rt, ops) /\
+    let i := mk_inst (d_opcode d) rt None ops in
+    match dedup_find (types s) i with
+    | Some id => o = BVal id /\ s' = s
+    | None =>
+        (bs_next s + 1 < w32 ->
+           o = BVal (bs_next s) /\
+           s' = with_mod (bump s) (add_type (bs_module s) (mk_inst (d_opcode d) rt (Some (bs_next s)) ops)) /\
+           types s' = types s ++ [mk_inst (d_opcode d) rt (Some (bs_next s)) ops] /\
+           alloc s s' = [bs_next s]) /\
+        (~ bs_next s + 1 < w32 -> o = BPanic /\ s' = s)
+    end.
+Proof. exact dedup_implicit. Qed.
+
+Theorem C13_dedup_finds_first_identical :
+  forall tys i id, dedup_find tys i = Some id <->
+  exists n t, nth_error tys n = Some t /\ type_identical t i = true /\ i_rid t = Some id /\
+              (forall m t', (m < n)%nat -> nth_error tys m = Some t' -> ~ dd_match i t').
+Proof. exact dedup_find_some. Qed.
+
+Theorem C13_dedup_none_iff_no_identical :
+  forall tys i, dedup_find tys i = None <-> (forall t, In t tys -> type_identical t i = true -> i_rid t = None).
+Proof. exact dedup_find_none. Qed.
+
+(** a module whose types were all requested implicitly never contains two identical declarations *)
+Theorem C13_no_duplicate_types :
+  forall k_fc ds cs s' ids, safe_run k_fc ds bnew cs -> brun_ids k_fc ds bnew cs = Some (s', ids) -> types_unique s'.
+Proof. exact no_duplicate_types. Qed.
+
+(** ... and different requests never share an id *)
+Theorem C13_requests_share_id_only_if_identical :
+  forall k_fc ds cs0 s0 ids0 m1 e1 d1 s1 cs s2 ids m2 e2 d2 s3 id rt1 ops1 rt2 ops2,
+  safe_run k_fc ds bnew cs0 -> brun_ids k_fc ds bnew cs0 = Some (s0, ids0) ->
+  find_desc ds m1 = Some d1 -> implicit_dedup d1 e1 ->
+  bstep k_fc ds s0 (CGen m1 e1) = Some (s1, BVal id) ->
+  safe_run k_fc ds s1 cs -> brun_ids k_fc ds s1 cs = Some (s2, ids) ->
+  find_desc ds m2 = Some d2 -> implicit_dedup d2 e2 ->
+  bstep k_fc ds s2 (CGen m2 e2) = Some (s3, BVal id) ->
+  call_parts d1 e1 = Some (rt1, ops1) -> call_parts d2 e2 = Some (rt2, ops2) ->
+  type_identical (mk_inst (d_opcode d1) rt1 None ops1) (mk_inst (d_opcode d2) rt2 None ops2) = true.
+Proof. exact implicit_requests_from_bnew. Qed.
+
 Print Assumptions C13_all_methods_described.
+Print Assumptions C13_one_id_per_call.
+Print Assumptions C13_ids_consecutive.
+Print Assumptions C13_ids_strictly_increasing.
+Print Assumptions C13_ids_distinct.
+Print Assumptions C13_first_id_new.
+Print Assumptions C13_first_id_continuing.
+Print Assumptions C13_bound_is_next_id.
+Print Assumptions C13_bound_exceeds_allocated.
+Print Assumptions C13_id_call.
+Print Assumptions C13_emitted_instruction_carries_allocated_id.
+Print Assumptions C13_type_explicit_appends.
+Print Assumptions C13_type_implicit_dedups.
+Print Assumptions C13_dedup_finds_first_identical.
+Print Assumptions C13_dedup_none_iff_no_identical.
+Print Assumptions C13_no_duplicate_types.
+Print Assumptions C13_requests_share_id_only_if_identical.
